@@ -5,8 +5,8 @@
    non-dominated sorter is assumed to return; decided in Coq on the implementation's fronts in
    every correspondence case). *)
 From Coq Require Import List ZArith QArith Bool.
-From DV Require Import Base.PyList Model.C05_Nsga2 Model.C05_Spec
-     Proofs.C05_Spec Proofs.C05_Nsga2 Proofs.C05_QInst.
+From DV Require Import Base.PyList Model.C05_Nsga2 Model.C05_Spec Model.C05_CrowdSpec
+     Proofs.C05_Spec Proofs.C05_Nsga2 Proofs.C05_QInst Proofs.C05_Crowding.
 Import ListNotations.
 Local Open Scope nat_scope.
 
@@ -79,6 +79,32 @@ Proof.
 Qed.
 Print Assumptions C05_nsga2_crowding_cut.
 
+(* crowding distance = the formula: for a front whose values are pairwise distinct in every
+   objective, individual j gets infinity if it is the smallest or largest in some objective, and
+   otherwise the sum over objectives of (next larger value - next smaller value) / (nobj * (max - min)).
+   crowd_spec (Model/C05_CrowdSpec.v) is written with list minima/maxima only, no sorting. *)
+Theorem C05_crowding_formula : forall (front : list (ind Q)) (j : nat),
+  (forall i, i < front_nobj front -> distinct_col (vcol i front)) ->
+  j < length front ->
+  qinf_eq (nth j (assign_crowding q_ops front) Inf) (crowd_spec front j).
+Proof. exact crowding_formula. Qed.
+Print Assumptions C05_crowding_formula.
+
+(* the list minimum / maximum used by crowd_spec are what their names say *)
+Theorem C05_lmin_lmax_spec : forall l : list Q, l <> [] ->
+  In (lmin l) l /\ In (lmax l) l /\ forall w, In w l -> (lmin l <= w)%Q /\ (w <= lmax l)%Q.
+Proof.
+  intros l N. split; [apply lmin_in, N|split; [apply lmax_in, N|]].
+  intros w I. split; [apply lmin_le, I|apply lmax_ge, I].
+Qed.
+Print Assumptions C05_lmin_lmax_spec.
+
+(* one distance per individual *)
+Theorem C05_crowding_length : forall o (front : list (ind (V o))),
+  length (assign_crowding o front) = length front.
+Proof. exact assign_crowding_length. Qed.
+Print Assumptions C05_crowding_length.
+
 (* the hypothesis is decidable and the decision procedure run by the correspondence check on the
    fronts returned by the implementation's sorter is sound *)
 Theorem C05_fronts_correct_decided : forall (A : Type) (pop : list (ind A)) k fu,
@@ -106,3 +132,13 @@ Example C05_nonvacuous :
   option_map uids (sel_nsga2 q_ops (map (select ex_pop) [[2; 0; 1]]) 2) = Some [2; 0] /\
   assign_crowding q_ops (select ex_pop [2; 0; 1]) = [Inf; Inf; Fin 1].
 Proof. vm_compute. repeat split. Qed.
+
+(* non-vacuity of crowding_formula: a 4-point front, distinct per objective; the interior points
+   get (3-0)/(2*4) + (5-1)/(2*5) = 31/40 and (4-1)/(2*4) + (2-0)/(2*5) = 23/40 *)
+Definition ex_front : list (ind Q) :=
+  [mkind 0 [] [0; 5]%Q; mkind 1 [] [1; 2]%Q; mkind 2 [] [3; 1#1]%Q; mkind 3 [] [4; 0]%Q].
+Definition qinf_red (a : qinf) : qinf := match a with Fin q => Fin (Qred q) | Inf => Inf end.
+Example C05_formula_nonvacuous :
+  map (fun j => qinf_red (crowd_spec ex_front j)) [0; 1; 2; 3] = [Inf; Fin (31 # 40); Fin (23 # 40); Inf] /\
+  assign_crowding q_ops ex_front = [Inf; Fin (31 # 40); Fin (23 # 40); Inf].
+Proof. vm_compute. split; reflexivity. Qed.
